@@ -322,7 +322,7 @@ class ConstantInt(ConstantOpcode, ABC):
 
     @classmethod
     def validate(cls, obj):
-        if not isinstance(obj, int):
+        if not isinstance(obj, int) or isinstance(obj, bool):
             raise ValueError(f"{cls.__name__} can only be instantiated from integers, not {obj!r}")
         elif cls.num_bytes not in cls.struct_types:
             raise TypeError(
@@ -1698,7 +1698,10 @@ class Int(ConstantOpcode):
 
     @classmethod
     def validate(cls, obj):
-        _ = int(obj)
+        # only real integers: int() also accepts '123', b'12', 1.5 or True, which would silently
+        # turn text, bytes, float and bool arguments into (different) integers
+        if not isinstance(obj, int) or isinstance(obj, bool):
+            raise ValueError(f"{cls.__name__} can only be instantiated from integers, not {obj!r}")
         return obj
 
 
